@@ -130,9 +130,10 @@ theorem popWrapper_nil (ws : Ws) (q : QN) (h : wsGet ws q = []) :
 
 /-! ### `ElementNode.child` and the children of one (possibly wrapped) var -/
 
-theorem findChildren_N {m : XmlMeta} {var : XmlVar} (hf : ElemFactsN m var)
-    (hc : m.choices = []) (hw : m.wildcards = []) : m.findChildren var.qname = [var] := by
-  simp [XmlMeta.findChildren, hf.find, hc, XmlMeta.findWildcard, findByNamespace, hw]
+/-- `find_children` yields the element var first (a wildcard that also takes the name comes after it) -/
+theorem findChildren_cons {m : XmlMeta} {var : XmlVar} (hf : ElemFactsN m var)
+    (hc : m.choices = []) : ∃ rest, m.findChildren var.qname = var :: rest := by
+  exact ⟨(m.findWildcard var.qname).toList, by simp [XmlMeta.findChildren, hf.find, hc]⟩
 
 /-- the node state after `child` found `var` under wrapper `wr` -/
 def stStep (st : ElState) (wr : Option QN) (var : XmlVar) : ElState :=
@@ -144,19 +145,39 @@ def stAfter (st : ElState) (wr : Option QN) : List (XmlVar × Val) → ElState
   | en :: r => stAfter (stStep st wr en.1) wr r
 
 theorem childNode_N (e : BEnv) (Γ : Ctx) (pcfg : ParserConfig) {m : XmlMeta} {var : XmlVar}
-    (hf : ElemFactsN m var) (hc : m.choices = []) (hw : m.wildcards = []) (st : ElState)
+    (hf : ElemFactsN m var) (hc : m.choices = []) (st : ElState)
     (a : List (QN × Str)) (M : NsMap) {node : Node}
     (hb : buildNode e Γ m var.qname var a M = .ok (some node))
     (hasg : var.listElement = false → var.index ∉ st.assigned) :
     childNode e Γ pcfg m st var.qname a M var.wrapperQName = .ok (node, stStep st var.wrapperQName var) := by
   have hidx : var.index ≠ 0 := by have := hf.index; omega
+  obtain ⟨rest, hfc⟩ := findChildren_cons hf hc
   by_cases hl : var.listElement = true
   · cases hwq : var.wrapperQName <;>
-      simp [childNode, childNode.go, findChildren_N hf hc hw, hl, hb, stStep, pushWs, hwq]
+      simp [childNode, childNode.go, hfc, hl, hb, stStep, pushWs, hwq]
   · have hl' : var.listElement = false := by simpa using hl
     cases hwq : var.wrapperQName <;>
-      simp [childNode, childNode.go, findChildren_N hf hc hw, hl', hb, stStep, pushWs, hwq,
+      simp [childNode, childNode.go, hfc, hl', hb, stStep, pushWs, hwq,
         VarCore.isElement, hf.isElem, hidx, hasg hl']
+
+/-- what the parser does with the child element `t` written for the entry `(var, y)`: the element
+is not taken for a wrapper, `ElementNode.child` hands it to `var` (whatever was assigned before, as
+long as a non-list var is still free), and the node gives `y` back under the qname of the var.
+(For an element var the element is named like the var; for a wildcard it has its own name.) -/
+def ItemK (e : BEnv) (Γ : Ctx) (pcfg : ParserConfig) (M : NsMap) (m : XmlMeta) (var : XmlVar)
+    (y : Val) (t : Tree) : Prop :=
+  ∃ q a text kids node, t = .node q a M text kids none ∧
+    m.wrappers.any (·.1 = q) = false ∧
+    (∀ st : ElState, (var.listElement = false → var.index ∉ st.assigned) →
+      childNode e Γ pcfg m st q a M var.wrapperQName = .ok (node, stStep st var.wrapperQName var)) ∧
+    parseNode e Γ pcfg node t = .ok ⟨[(some var.qname, y)], 0⟩
+
+theorem itemK_of_itemP {e : BEnv} {Γ : Ctx} {pcfg : ParserConfig} {M : NsMap} {m : XmlMeta} {var : XmlVar}
+    (hf : ElemFactsN m var) (hc : m.choices = []) {y : Val} {t : Tree}
+    (h : ItemP e Γ pcfg M m var y t) : ItemK e Γ pcfg M m var y t := by
+  obtain ⟨a, text, kids, node, ht, hb, hp⟩ := h
+  exact ⟨var.qname, a, text, kids, node, ht, hf.notWrapperName,
+    fun st hasg => childNode_N e Γ pcfg hf hc st a M hb hasg, hp⟩
 
 theorem stAfter_assigned (wr : Option QN) : ∀ (entries : List (XmlVar × Val)) (st : ElState),
     (stAfter st wr entries).assigned = assignedAfter st.assigned entries := by
@@ -168,11 +189,10 @@ theorem stAfter_assigned (wr : Option QN) : ∀ (entries : List (XmlVar × Val))
 /-- the child elements of one var (all under the same wrapper `wr`, `none` = directly under the
 element), followed by `rest` -/
 theorem parseKids_itemsN (e : BEnv) (Γ : Ctx) (pcfg : ParserConfig) (M : NsMap) {m : XmlMeta}
-    (hc : m.choices = []) (hw : m.wildcards = []) (wr : Option QN) (tr : XmlVar × Val → Tree)
+    (wr : Option QN) (tr : XmlVar × Val → Tree)
     (rest : List Tree) :
     ∀ (entries : List (XmlVar × Val)) (st : ElState) (ro : Objs) (rw : Nat) (stf : ElState),
-    (∀ en ∈ entries, ElemFactsN m en.1 ∧ en.1.wrapperQName = wr ∧
-      ItemP e Γ pcfg M m en.1 en.2 (tr en)) →
+    (∀ en ∈ entries, en.1.wrapperQName = wr ∧ ItemK e Γ pcfg M m en.1 en.2 (tr en)) →
     AssignedOK st.assigned entries →
     parseKids e Γ pcfg m (stAfter st wr entries) wr rest = .ok (⟨ro, rw⟩, stf) →
     parseKids e Γ pcfg m st wr (entries.map tr ++ rest) =
@@ -184,9 +204,8 @@ theorem parseKids_itemsN (e : BEnv) (Γ : Ctx) (pcfg : ParserConfig) (M : NsMap)
     intro st ro rw stf h hasg hrest
     obtain ⟨var, y⟩ := en
     have hh := h (var, y) (by simp)
-    have hf : ElemFactsN m var := hh.1
-    have hwr : var.wrapperQName = wr := hh.2.1
-    obtain ⟨a, text, kids, node, ht, hb, hp⟩ : ItemP e Γ pcfg M m var y (tr (var, y)) := hh.2.2
+    have hwr : var.wrapperQName = wr := hh.1
+    obtain ⟨q, a, text, kids, node, ht, hnwq, hch, hp⟩ : ItemK e Γ pcfg M m var y (tr (var, y)) := hh.2
     have hasg' : (var.listElement = false → var.index ∉ st.assigned) ∧
         AssignedOK (stStep st wr var).assigned r := by
       by_cases hl : var.listElement = true
@@ -195,14 +214,14 @@ theorem parseKids_itemsN (e : BEnv) (Γ : Ctx) (pcfg : ParserConfig) (M : NsMap)
       · have hl' : var.listElement = false := by simpa using hl
         simp only [AssignedOK, hl', Bool.false_eq_true, if_false] at hasg
         exact ⟨fun _ => hasg.1, by simpa [stStep, hl'] using hasg.2⟩
-    have hchild := childNode_N e Γ pcfg hf hc hw st a M hb hasg'.1
+    have hchild := hch st hasg'.1
     rw [hwr] at hchild
     have hrec := ih (stStep st wr var) ro rw stf (fun en hen => h en (by simp [hen])) hasg'.2
       (by simpa [stAfter] using hrest)
     simp only [List.map_cons, List.cons_append, ht]
     rw [parseKids]
-    have hnw : (wr.isNone && m.wrappers.any (·.1 = var.qname)) = false := by
-      rw [hf.notWrapperName]; simp
+    have hnw : (wr.isNone && m.wrappers.any (·.1 = q)) = false := by
+      rw [hnwq]; simp
     simp only [hnw, Bool.false_eq_true, if_false]
     rw [← ht]
     simp [hchild, hp, hrec, bind, Except.bind, pure, Except.pure]
@@ -238,9 +257,10 @@ theorem chunkTrees_some {M : NsMap} {tr : Val → Tree} {var : XmlVar} {x : Val}
   simp [chunkTrees, h]
 
 theorem parseKids_chunks (e : BEnv) (Γ : Ctx) (pcfg : ParserConfig) (M : NsMap) {m : XmlMeta}
-    (hc : m.choices = []) (hw : m.wildcards = []) (tr : XmlVar × Val → Tree) :
+    (tr : XmlVar × Val → Tree) :
     ∀ (chunks : List (XmlVar × Val)) (st : ElState),
-    (∀ c ∈ chunks, ElemFactsN m c.1 ∧ ∀ en ∈ chunkEntries c, ItemP e Γ pcfg M m en.1 en.2 (tr en)) →
+    (∀ c ∈ chunks, (∀ w, c.1.wrapperQName = some w → m.wrappers.any (·.1 = w) = true) ∧
+      ∀ en ∈ chunkEntries c, ItemK e Γ pcfg M m en.1 en.2 (tr en)) →
     AssignedOK st.assigned (chunks.flatMap chunkEntries) →
     parseKids e Γ pcfg m st none
         (chunks.flatMap fun c => chunkTrees M (fun y => tr (c.1, y)) c.1 c.2) =
@@ -253,16 +273,16 @@ theorem parseKids_chunks (e : BEnv) (Γ : Ctx) (pcfg : ParserConfig) (M : NsMap)
     intro st h hasg
     obtain ⟨var, x⟩ := c
     have hc1 := h (var, x) (by simp)
-    have hf : ElemFactsN m var := hc1.1
+    have hwrapOK := hc1.1
     simp only [List.flatMap_cons] at hasg ⊢
     rw [AssignedOK_append] at hasg
-    have hentries : ∀ en ∈ chunkEntries (var, x), ElemFactsN m en.1 ∧
-        en.1.wrapperQName = var.wrapperQName ∧ ItemP e Γ pcfg M m en.1 en.2 (tr en) := by
+    have hentries : ∀ en ∈ chunkEntries (var, x),
+        en.1.wrapperQName = var.wrapperQName ∧ ItemK e Γ pcfg M m en.1 en.2 (tr en) := by
       intro en hen
       have hv : en.1 = var := by
         simp only [chunkEntries, List.mem_map] at hen
         obtain ⟨y, _, rfl⟩ := hen; rfl
-      exact ⟨by rw [hv]; exact hf, by rw [hv], hc1.2 en hen⟩
+      exact ⟨by rw [hv], hc1.2 en hen⟩
     have hrest := ih (stAfter st var.wrapperQName (chunkEntries (var, x)))
       (fun c hc' => h c (by simp [hc'])) (by rw [stAfter_assigned]; exact hasg.2)
     have htrees : (itemsN var x).map (fun y => tr (var, y)) = (chunkEntries (var, x)).map tr := by
@@ -272,16 +292,16 @@ theorem parseKids_chunks (e : BEnv) (Γ : Ctx) (pcfg : ParserConfig) (M : NsMap)
       rw [hwq] at hentries hrest
       rw [chunkTrees_none hwq]
       simp only [htrees, stAfterChunks, List.map_append, hwq]
-      exact parseKids_itemsN e Γ pcfg M hc hw none tr _ _ st _ 0 _ hentries hasg.1 hrest
+      exact parseKids_itemsN e Γ pcfg M none tr _ _ st _ 0 _ hentries hasg.1 hrest
     | some w =>
       rw [hwq] at hentries hrest
       rw [chunkTrees_some hwq]
       simp only [htrees, stAfterChunks, List.map_append, List.cons_append, List.nil_append, hwq]
       rw [parseKids]
       have hcond : ((none : Option QN).isNone && m.wrappers.any (·.1 = w)) = true := by
-        simp [hf.wrapOK w hwq]
+        simp [hwrapOK w hwq]
       simp only [hcond, if_true]
-      have hinner := parseKids_itemsN e Γ pcfg M hc hw (some w) tr [] (chunkEntries (var, x)) st [] 0
+      have hinner := parseKids_itemsN e Γ pcfg M (some w) tr [] (chunkEntries (var, x)) st [] 0
         (stAfter st (some w) (chunkEntries (var, x))) hentries hasg.1 (by simp [parseKids])
       simp only [List.append_nil] at hinner
       simp [hinner, hrest, bind, Except.bind, pure, Except.pure]
@@ -395,11 +415,29 @@ theorem WsOK_of_queues : ∀ (E : List (XmlVar × Val)) (ws : Ws),
       rw [hq, hsplit]
       by_cases h : var.qname = q <;> simp [h, hwq]
 
+/-- `bind_var` takes the value: the var is a list, or has `init=False`, or is not bound yet -/
+theorem bindVar_true {P : Params} {var : XmlVar} (y : Val)
+    (h : var.listElement = true ∨ var.init = false ∨ P.has var.name = false) :
+    (bindVar P var y).1 = true := by
+  unfold bindVar
+  cases hi : var.init with
+  | false => simp
+  | true =>
+    cases hl : var.listElement with
+    | true => simp only [if_true]; split <;> rfl
+    | false =>
+      rcases h with h | h | h
+      · rw [hl] at h; cases h
+      · rw [hi] at h; cases h
+      · simp [h]
+
 theorem bindObject_N {m : XmlMeta} {var : XmlVar} (hf : ElemFactsN m var)
-    (hc : m.choices = []) (hw : m.wildcards = []) (ws : Ws) (P : Params) (y : Val)
-    (hpop : (popWrapper ws (some var.qname)).1 = var.wrapperQName) :
-    ∃ b, bindObject m ws P (some var.qname) y =
-      .ok (b, (bindVar P var y).2, (popWrapper ws (some var.qname)).2) := by
+    (hc : m.choices = []) (ws : Ws) (P : Params) (y : Val)
+    (hpop : (popWrapper ws (some var.qname)).1 = var.wrapperQName)
+    (hfresh : var.listElement = true ∨ var.init = false ∨ P.has var.name = false) :
+    bindObject m ws P (some var.qname) y =
+      .ok (true, (bindVar P var y).2, (popWrapper ws (some var.qname)).2) := by
+  obtain ⟨rest, hfc⟩ := findChildren_cons hf hc
   cases hpw : popWrapper ws (some var.qname) with
   | mk wrp ws' =>
     rw [hpw] at hpop
@@ -407,46 +445,44 @@ theorem bindObject_N {m : XmlMeta} {var : XmlVar} (hf : ElemFactsN m var)
     subst hpop
     have hskip : (var.wrapperQName.isSome && decide (var.wrapperQName ≠ var.wrapperQName)) = false := by
       simp
+    have ht := bindVar_true y hfresh
     cases hb : bindVar P var y with
     | mk okk p =>
-      cases okk with
-      | true =>
-        exact ⟨true, by simp [bindObject, hpw, bindObject.go, findChildren_N hf hc hw,
-          VarCore.isWildcard, hf.isElem, hb, bind, Except.bind, pure, Except.pure]⟩
-      | false =>
-        have hp : p = P := by
-          unfold bindVar at hb
-          split at hb
-          · split at hb
-            · split at hb <;> cases hb
-            · split at hb <;> cases hb
-              rfl
-          · cases hb
-        exact ⟨false, by simp [bindObject, hpw, bindObject.go, findChildren_N hf hc hw,
-          VarCore.isWildcard, hf.isElem, hb, hp, bind, Except.bind, pure, Except.pure]⟩
+      rw [hb] at ht
+      simp only at ht
+      subst ht
+      simp [bindObject, hpw, bindObject.go, hfc, VarCore.isWildcard, hf.isElem, hb, bind, Except.bind,
+        pure, Except.pure]
+
+/-- every entry is taken by `bind_var`: non-list vars with `init` are met unbound -/
+def FreshOK : Params → List (XmlVar × Val) → Prop
+  | _, [] => True
+  | P, (var, y) :: r =>
+    (var.listElement = true ∨ var.init = false ∨ P.has var.name = false) ∧ FreshOK (bindVar P var y).2 r
 
 /-- the `wrappers` dict after `bind_objects` -/
 def wsFinal (ws : Ws) (entries : List (XmlVar × Val)) : Ws :=
   entries.foldl (fun ws en => (popWrapper ws (some en.1.qname)).2) ws
 
-theorem bindObjects_genN {m : XmlMeta}
+theorem bindObjects_genN {m : XmlMeta} (KF : XmlVar → Val → Prop)
     (step : Params × Ws → Option QN × Val → Except Err (Params × Ws))
-    (hstep : ∀ (P : Params) (ws : Ws) (var : XmlVar) (y : Val), ElemFactsN m var →
+    (hstep : ∀ (P : Params) (ws : Ws) (var : XmlVar) (y : Val), KF var y →
       (popWrapper ws (some var.qname)).1 = var.wrapperQName →
+      (var.listElement = true ∨ var.init = false ∨ P.has var.name = false) →
       step (P, ws) (some var.qname, y) =
         .ok ((bindVar P var y).2, (popWrapper ws (some var.qname)).2)) :
-    ∀ (entries : List (XmlVar × Val)) (P : Params) (ws : Ws), (∀ en ∈ entries, ElemFactsN m en.1) →
-      WsOK ws entries →
+    ∀ (entries : List (XmlVar × Val)) (P : Params) (ws : Ws), (∀ en ∈ entries, KF en.1 en.2) →
+      WsOK ws entries → FreshOK P entries →
       (entries.map fun en => (some en.1.qname, en.2)).foldlM step (P, ws) =
         .ok (bindEntries P entries, wsFinal ws entries) := by
   intro entries
   induction entries with
-  | nil => intro P ws _ _; rfl
+  | nil => intro P ws _ _ _; rfl
   | cons en t ih =>
-    intro P ws h hws
+    intro P ws h hws hfr
     obtain ⟨var, y⟩ := en
-    simp only [List.map_cons, List.foldlM_cons, hstep P ws var y (h (var, y) (by simp)) hws.1]
+    simp only [List.map_cons, List.foldlM_cons, hstep P ws var y (h (var, y) (by simp)) hws.1 hfr.1]
     exact ih (bindVar P var y).2 (popWrapper ws (some var.qname)).2
-      (fun en' he => h en' (by simp [he])) hws.2
+      (fun en' he => h en' (by simp [he])) hws.2 hfr.2
 
 end Proofs.C01
